@@ -526,7 +526,7 @@ End Real.
 
 From RM Require Import Proofs.TickBound.
 From Flocq Require Import Core BinarySingleNaN.
-From Coq Require Import Reals.
+From Coq Require Import Reals Lra.
 Open Scope Z_scope.
 
 (* when SliderEventsIter::new(..).collect() runs out of fuel: the tick loop of
@@ -558,7 +558,9 @@ Qed.
 Theorem events_with_done chk fuel tf start dur vel td total n k :
   0 <= n <= i32_max -> nn64 total = true -> 0 <= k <= 30 ->
   (forall tdc, D.clamp_chk td D.zero (D.min (SliderEvents.c_max_len SliderEvents.ops64) total) = Done tdc ->
-               D.lt D.zero tdc = true -> is_finite tdc = true /\ (bpow radix2 (- k) <= B2R tdc)%R) ->
+               D.lt D.zero tdc = true ->
+               (is_finite tdc = true /\ (bpow radix2 (- k) <= B2R tdc)%R) \/
+               tdc = D.min (SliderEvents.c_max_len SliderEvents.ops64) total) ->
   100000 * 2 ^ k + 1 < Z.of_nat tf ->
   3 + n * (100000 * 2 ^ k + 1) < Z.of_nat fuel ->
   exists evs, events_with chk fuel tf start dur vel td total n = Done evs.
@@ -582,13 +584,24 @@ Proof.
                                else Done []) = Done ds /\ Z.of_nat (length ds) <= 100000 * 2 ^ k).
       { destruct (0 <? SliderEvents.p_n p); [|exists []; split; [reflexivity|cbn [length]; lia]].
         destruct (D.lt D.zero tdc) eqn:Epos.
-        - destruct (Htd tdc eq_refl Epos) as (Ftd & Rtd).
-          assert (Hbig : 100000 * 2 ^ k + 2 < 2 ^ 53).
-          { assert (2 ^ k <= 2 ^ 30) by (apply Z.pow_le_mono_r; lia). lia. }
-          destruct (span_dists_bound (SliderEvents.sp_len SliderEvents.ops64 p)
-                      (SliderEvents.sp_mdfe SliderEvents.ops64 p) tdc k 100000 tf
-                      ltac:(lia) ltac:(lia) Hbig Fl Rl Ftd Rtd Htf) as (ds & Eds & Hlen).
-          exists ds. split; [exact Eds|exact Hlen].
+        - destruct (Htd tdc eq_refl Epos) as [(Ftd & Rtd)|Elen].
+          + assert (Hbig : 100000 * 2 ^ k + 2 < 2 ^ 53).
+            { assert (2 ^ k <= 2 ^ 30) by (apply Z.pow_le_mono_r; lia). lia. }
+            destruct (span_dists_bound (SliderEvents.sp_len SliderEvents.ops64 p)
+                        (SliderEvents.sp_mdfe SliderEvents.ops64 p) tdc k 100000 tf
+                        ltac:(lia) ltac:(lia) Hbig Fl Rl Ftd Rtd Htf) as (ds & Eds & Hlen).
+            exists ds. split; [exact Eds|exact Hlen].
+          + (* the tick distance was clamped to the length itself: at most one tick *)
+            change (D.min (SliderEvents.c_max_len SliderEvents.ops64) total)
+              with (SliderEvents.sp_len SliderEvents.ops64 p) in Elen. subst tdc.
+            assert (Hpos : (0 < B2R (SliderEvents.sp_len SliderEvents.ops64 p))%R).
+            { unfold D.lt, flt in Epos.
+              rewrite (Bltb_correct 53 1024 (D.zero : F64) _ (eq_refl : is_finite (D.zero : F64) = true) Fl) in Epos.
+              destruct (Raux.Rlt_bool_spec (B2R (D.zero : F64)) (B2R (SliderEvents.sp_len SliderEvents.ops64 p)))
+                as [Hlt|Hge]; [exact Hlt|discriminate]. }
+            destruct (span_dists_at_len (SliderEvents.sp_len SliderEvents.ops64 p)
+                        (SliderEvents.sp_mdfe SliderEvents.ops64 p) tf Fl Hpos ltac:(lia)) as (ds & Eds & Hlen).
+            exists ds. split; [exact Eds|lia].
         - exists []. split; [|cbn [length]; lia]. unfold SliderEvents.span_dists.
           change (SliderEvents.f_lt SliderEvents.ops64 (SliderEvents.c_zero SliderEvents.ops64) tdc)
             with (D.lt D.zero tdc). rewrite Epos. reflexivity. }
@@ -676,7 +689,45 @@ Section RealFuel.
   (* the tick distance the iterator ends up with is at least 2^-k, if positive *)
   Definition tick_dist_ge (k : Z) (td total : F64) : Prop :=
     forall tdc, D.clamp_chk td D.zero (D.min (SliderEvents.c_max_len SliderEvents.ops64) total) = Done tdc ->
-                D.lt D.zero tdc = true -> is_finite tdc = true /\ (bpow radix2 (- k) <= B2R tdc)%R.
+                D.lt D.zero tdc = true ->
+                (is_finite tdc = true /\ (bpow radix2 (- k) <= B2R tdc)%R) \/
+                tdc = D.min (SliderEvents.c_max_len SliderEvents.ops64) total.
+
+  (* clamp(td, 0, len) of a tick distance that is +inf (ticks switched off) or
+     finite and >= 2^-k is td itself or len *)
+  Lemma tick_dist_ge_of_lower k td total :
+    td = D.inf false \/ (is_finite td = true /\ (bpow radix2 (- k) <= B2R td)%R) ->
+    tick_dist_ge k td total.
+  Proof.
+    intros Htd tdc Ec _. unfold D.clamp_chk, fclamp in Ec.
+    destruct (fle 53 1024 D.zero (D.min (SliderEvents.c_max_len SliderEvents.ops64) total)); [|discriminate].
+    assert (Hnl : flt 53 1024 td D.zero = false).
+    { destruct Htd as [->|(Ft & Rt)]; [reflexivity|].
+      unfold flt. rewrite (Bltb_correct 53 1024 td D.zero Ft eq_refl).
+      apply Raux.Rlt_bool_false. pose proof (bpow_gt_0 radix2 (- k)). cbn [B2R D.zero fzero]. lra. }
+    rewrite Hnl in Ec.
+    destruct (fgt 53 1024 td (D.min (SliderEvents.c_max_len SliderEvents.ops64) total)) eqn:Eg;
+      inversion Ec; subst tdc; [right; reflexivity|].
+    destruct Htd as [->|H]; [|left; exact H].
+    (* +inf is greater than the length, which is never NaN and never +inf *)
+    exfalso. unfold fgt in Eg.
+    assert (Hlen : forall len : F64, D.is_nan len = false -> len <> B754_infinity false ->
+                   flt 53 1024 len (D.inf false) = true).
+    { intros len Hn Hi. destruct len as [s|s| |s m e Hb]; try discriminate;
+        try (destruct s); try reflexivity. exfalso. apply Hi. reflexivity. }
+    rewrite Hlen in Eg; [discriminate| |].
+    - pose proof max_len_not_nan as Hm. unfold D.min, fmin. fold D.is_nan. rewrite Hm.
+      destruct (D.is_nan total) eqn:En; [exact Hm|].
+      destruct (flt 53 1024 total (SliderEvents.c_max_len SliderEvents.ops64)); [exact En|exact Hm].
+    - pose proof max_len_not_nan as Hm. pose proof max_len_fin as Fm. unfold D.min, fmin. fold D.is_nan. rewrite Hm.
+      assert (HM : SliderEvents.c_max_len SliderEvents.ops64 <> B754_infinity false).
+      { intros E. rewrite E in Fm. discriminate. }
+      destruct (D.is_nan total) eqn:En; [exact HM|].
+      destruct (flt 53 1024 total (SliderEvents.c_max_len SliderEvents.ops64)) eqn:El; [|exact HM].
+      intros E. rewrite E in El.
+      destruct (SliderEvents.c_max_len SliderEvents.ops64) as [s|s| |s m e Hb]; try discriminate;
+        destruct s; discriminate.
+  Qed.
 
   Definition slider_ticks_ok (k : Z) (m : BeatmapV) (h : HitObject) : Prop :=
     let ho := bmv_ho m in
